@@ -2272,3 +2272,538 @@ Proof. split; [vm_compute; reflexivity|]. split; vm_compute; reflexivity. Qed.
 (* the number of record types the theorems range over *)
 Lemma layouts_count : length layouts = 81%nat.
 Proof. vm_compute. reflexivity. Qed.
+
+(* ================================================================== *)
+(* the conditions are exact: when the packer writes back the octets that were
+   read, the condition holds *)
+Lemma st0_inj a b : st0 a = st0 b -> a = b.
+Proof. intro H. exact (f_equal pn_out H). Qed.
+Lemma Ok_st0_inj a b : @Ok pn_state (st0 a) = Ok (st0 b) -> a = b.
+Proof. intro H. apply st0_inj. congruence. Qed.
+
+Lemma app_eq_len {A} (a b c d : list A) : length a = length b -> a ++ c = b ++ d -> a = b /\ c = d.
+Proof.
+  revert b; induction a as [|x a IH]; intros b Hl H; destruct b as [|y b]; try discriminate Hl.
+  - split; [reflexivity|exact H].
+  - cbn in H. injection H as -> H. destruct (IH b ltac:(cbn in Hl; lia) H) as [-> ->]. split; reflexivity.
+Qed.
+
+(* one (code, length, value) triple *)
+Lemma pair_item_nec msg off code n b lb C r :
+  wfb msg -> off + 4 + n + r <= lenN msg ->
+  code = be (take_at msg off 2) 0 -> n = be (take_at msg (off + 2) 2) 0 -> lenN b < 65536 ->
+  enc_pair (code, b, lb) ++ C = take_at msg off (4 + n + r) ->
+  b = take_at msg (off + 4) n /\ C = take_at msg (off + 4 + n) r.
+Proof.
+  intros Hw Hl Ec En Hb H.
+  assert (Hn : n < 65536) by (subst n; apply be2_bound; [exact Hw|lia]).
+  rewrite <- (pair_wire msg off code n lb r Hw Hl Ec En) in H.
+  unfold enc_pair, pkey in H. cbn [fst snd] in H. rewrite <- !app_assoc in H.
+  apply app_inv_head in H. rewrite lenN_take_at in H by lia.
+  unfold u16 in H. cbn [app] in H. injection H as H1 H2 H.
+  assert (Elen : lenN b = n) by lia.
+  apply app_eq_len in H; [exact H|]. rewrite <- Elen. unfold take_at, takeN, dropN, lenN in *.
+  rewrite firstn_length, skipn_length. lia.
+Qed.
+
+Lemma opts_acc_prefix fuel : forall msg off acc l off',
+  unpack_opts_go fuel msg off acc = Ok (l, off') -> exists l', l = acc ++ l'.
+Proof.
+  induction fuel as [|f IH]; intros msg off acc l off' H; [discriminate|].
+  cbn [unpack_opts_go] in H. destruct (off <? lenN msg).
+  - destruct (lenN msg <? off + 4); [discriminate|]. destruct (lenN msg <? _); [discriminate|].
+    destruct (opt_view _ _) as [[b lb]|]; [|discriminate].
+    apply IH in H. destruct H as [l' ->]. eexists. rewrite <- app_assoc. reflexivity.
+  - apply Ok_pair_inj in H. destruct H as [<- _]. exists []. now rewrite app_nil_r.
+Qed.
+
+Lemma opts_plain_nec fuel : forall msg off acc l' off',
+  wfb msg -> off <= lenN msg -> (N.to_nat (lenN msg - off) < fuel)%nat ->
+  unpack_opts_go fuel msg off acc = Ok (acc ++ l', off') ->
+  concat (map enc_pair l') = take_at msg off (off' - off) ->
+  opts_plain fuel msg off.
+Proof.
+  induction fuel as [|f IH]; intros msg off acc l' off' Hw Hoff Hf H Henc; [exact I|].
+  cbn [unpack_opts_go opts_plain] in *. destruct (off <? lenN msg) eqn:E; [|exact I].
+  destruct (lenN msg <? off + 4) eqn:E4; [discriminate|]. cbv zeta.
+  set (code := be (take_at msg off 2) 0) in *. set (n := be (take_at msg (off + 2) 2) 0) in *.
+  destruct (lenN msg <? off + 4 + n) eqn:E5; [discriminate|].
+  destruct (opt_view code (take_at msg (off + 4) n)) as [[b lb]|] eqn:Ev; [|discriminate].
+  pose proof (unpack_opts_go_safe f msg (off + 4 + n) (acc ++ [(code, b, lb)]) ltac:(lia) ltac:(lia)) as Hsafe.
+  rewrite H in Hsafe. cbn [safe] in Hsafe.
+  destruct (opts_acc_prefix _ _ _ _ _ _ H) as [l'' El].
+  rewrite <- app_assoc in El. apply app_inv_head in El. cbn [app] in El. subst l'.
+  cbn [map concat] in Henc.
+  replace (off' - off) with (4 + n + (off' - (off + 4 + n))) in Henc by lia.
+  destruct (opt_view_idem code _ b lb (wfb_take_at msg (off + 4) n Hw) Ev) as [_ Hbl].
+  rewrite lenN_take_at in Hbl by lia.
+  assert (Hn : n < 65536) by (apply be2_bound; [exact Hw|lia]).
+  destruct (pair_item_nec msg off code n b lb _ (off' - (off + 4 + n)) Hw ltac:(lia) eq_refl eq_refl ltac:(lia) Henc) as [Eb EC].
+  split; [cbn [view_id]; exact Eb|].
+  apply (IH msg (off + 4 + n) (acc ++ [(code, b, lb)]) l'' off' Hw ltac:(lia) ltac:(lia)); [now rewrite <- app_assoc|exact EC].
+Qed.
+
+Theorem opts_converse_iff msg off l off' cap out :
+  wfb msg -> off <= lenN msg -> lenN msg <= cap -> lenN out = off ->
+  unpack_opts msg off = Ok (l, off') ->
+  (pack_opts l cap (st0 out) = Ok (st0 (out ++ take_at msg off (off' - off))) <->
+   opts_plain (S (length msg)) msg off).
+Proof.
+  intros Hw Hoff Hcap Ho H. split.
+  - intro Hp. apply pack_opts_ok in Hp. apply st0_inj in Hp. apply app_inv_head in Hp.
+    unfold unpack_opts in H. apply (opts_plain_nec _ msg off [] l off' Hw Hoff (fuel_enough msg off) H). now symmetry.
+  - intro Hp. exact (proj2 (opts_converse msg off l off' cap out Hw Hoff Hcap Ho H Hp)).
+Qed.
+
+(* SVCB parameters *)
+Lemma svcb_view_len key data b l : wfb data -> svcb_view key data = Some (b, l) -> lenN b <= lenN data.
+Proof.
+  intros Hw H. unfold svcb_view in H.
+  destruct (key =? 65535); [discriminate|].
+  destruct (key =? 0).
+  { destruct (lenN data mod 2 =? 0) eqn:Em; [|discriminate]. spi H.
+    destruct (pairs16_spec data (length data) (le_n _) Hw) as [P1 P2].
+    rewrite len_flat_u16. unfold lenN in *. rewrite sort_n_length. lia. }
+  destruct (key =? 1).
+  { destruct (alpn_scan _ _) as [he|]; [|discriminate]. spi H. destruct he; [cbn|]; lia. }
+  destruct (key =? 2). { destruct (lenN data =? 0); [|discriminate]. spi H. cbn. lia. }
+  destruct (key =? 3). { destruct (lenN data =? 2); [|discriminate]. spi H. lia. }
+  destruct (key =? 4). { destruct (_ || _); [discriminate|]. spi H. lia. }
+  destruct (key =? 6). { destruct (_ || _); [discriminate|]. spi H. lia. }
+  destruct (key =? 8). { destruct (lenN data =? 0); [|discriminate]. spi H. cbn. lia. }
+  spi H. lia.
+Qed.
+
+Lemma svcb_acc_prefix fuel : forall msg off last acc l off',
+  unpack_svcb_go fuel msg off last acc = Ok (l, off') -> exists l', l = acc ++ l'.
+Proof.
+  induction fuel as [|f IH]; intros msg off last acc l off' H; [discriminate|].
+  cbn [unpack_svcb_go] in H. destruct (off <? lenN msg).
+  - destruct (lenN msg <? off + 2); [discriminate|]. destruct (lenN msg <? off + 2 + 2); [discriminate|].
+    destruct (lenN msg <? _); [discriminate|].
+    destruct (svcb_view _ _) as [[b lb]|]; [|discriminate]. destruct (_ <=? last)%Z; [discriminate|].
+    apply IH in H. destruct H as [l' ->]. eexists. rewrite <- app_assoc. reflexivity.
+  - apply Ok_pair_inj in H. destruct H as [<- _]. exists []. now rewrite app_nil_r.
+Qed.
+
+Lemma svcb_plain_nec fuel : forall msg off last acc l' off',
+  wfb msg -> off <= lenN msg -> (N.to_nat (lenN msg - off) < fuel)%nat ->
+  unpack_svcb_go fuel msg off last acc = Ok (acc ++ l', off') ->
+  concat (map enc_pair l') = take_at msg off (off' - off) ->
+  svcb_plain fuel msg off.
+Proof.
+  induction fuel as [|f IH]; intros msg off last acc l' off' Hw Hoff Hf H Henc; [exact I|].
+  cbn [unpack_svcb_go svcb_plain] in *. destruct (off <? lenN msg) eqn:E; [|exact I].
+  destruct (lenN msg <? off + 2) eqn:E2; [discriminate|].
+  destruct (lenN msg <? off + 2 + 2) eqn:E4; [discriminate|]. cbv zeta.
+  set (code := be (take_at msg off 2) 0) in *. set (n := be (take_at msg (off + 2) 2) 0) in *.
+  destruct (lenN msg <? off + 2 + 2 + n) eqn:E5; [discriminate|].
+  destruct (svcb_view code (take_at msg (off + 2 + 2) n)) as [[b lb]|] eqn:Ev; [|discriminate].
+  destruct (Z.of_N code <=? last)%Z; [discriminate|].
+  pose proof (unpack_svcb_go_safe f msg (off + 2 + 2 + n) (Z.of_N code) (acc ++ [(code, b, lb)]) ltac:(lia) ltac:(lia)) as Hsafe.
+  rewrite H in Hsafe. cbn [safe] in Hsafe.
+  destruct (svcb_acc_prefix _ _ _ _ _ _ _ H) as [l'' El].
+  rewrite <- app_assoc in El. apply app_inv_head in El. cbn [app] in El. subst l'.
+  cbn [map concat] in Henc.
+  replace (off' - off) with (4 + n + (off' - (off + 4 + n))) in Henc by lia.
+  pose proof (svcb_view_len code _ b lb (wfb_take_at msg (off + 2 + 2) n Hw) Ev) as Hbl.
+  rewrite lenN_take_at in Hbl by lia.
+  assert (Hn : n < 65536) by (apply be2_bound; [exact Hw|lia]).
+  destruct (pair_item_nec msg off code n b lb _ (off' - (off + 4 + n)) Hw ltac:(lia) eq_refl eq_refl ltac:(lia) Henc) as [Eb EC].
+  replace (off + 2 + 2) with (off + 4) in * by lia.
+  split; [cbn [view_id]; exact Eb|].
+  apply (IH msg (off + 4 + n) (Z.of_N code) (acc ++ [(code, b, lb)]) l'' off' Hw ltac:(lia) ltac:(lia)); [now rewrite <- app_assoc|exact EC].
+Qed.
+
+Lemma svcb_keys_sorted fuel : forall msg off last acc l off',
+  (-1 <= last)%Z -> unpack_svcb_go fuel msg off last acc = Ok (l, off') ->
+  exists l', l = acc ++ l' /\ sorted_from (Z.to_N (last + 1)) (map pkey l').
+Proof.
+  induction fuel as [|f IH]; intros msg off last acc l off' Hlast H; [discriminate|].
+  cbn [unpack_svcb_go] in H. destruct (off <? lenN msg).
+  - destruct (lenN msg <? off + 2); [discriminate|]. destruct (lenN msg <? off + 2 + 2); [discriminate|].
+    destruct (lenN msg <? _); [discriminate|].
+    set (code := be (take_at msg off 2) 0) in *.
+    destruct (svcb_view _ _) as [[b lb]|]; [|discriminate]. destruct (Z.of_N code <=? last)%Z eqn:Ez; [discriminate|].
+    assert (Hc : (-1 <= Z.of_N code)%Z) by (clearbody code; lia).
+    destruct (IH _ _ (Z.of_N code) _ _ _ Hc H) as [l' [-> Hs]]. exists ((code, b, lb) :: l'). split; [now rewrite <- app_assoc|].
+    cbn [map sorted_from]. unfold pkey at 1 2. cbn [fst]. split; [lia|].
+    replace (code + 1) with (Z.to_N (Z.of_N code + 1)) by lia. exact Hs.
+  - apply Ok_pair_inj in H. destruct H as [<- _]. exists []. split; [now rewrite app_nil_r|exact I].
+Qed.
+
+Theorem svcb_converse_iff msg off l off' cap out :
+  wfb msg -> off <= lenN msg -> lenN msg <= cap -> lenN out = off ->
+  unpack_svcb msg off = Ok (l, off') ->
+  (pack_svcb l cap (st0 out) = Ok (st0 (out ++ take_at msg off (off' - off))) <->
+   svcb_plain (S (length msg)) msg off).
+Proof.
+  intros Hw Hoff Hcap Ho H. split.
+  - intro Hp. unfold unpack_svcb in H.
+    destruct (svcb_keys_sorted _ msg off (-1)%Z [] l off' ltac:(lia) H) as [l' [El Hs]]. cbn [app] in El. subst l'.
+    change (Z.to_N (-1 + 1)) with 0 in Hs.
+    unfold pack_svcb, sort_pairs in Hp. rewrite (sort_pairs_sorted l 0 []) in Hp by (exact Hs || constructor).
+    cbn [app] in Hp. apply pack_pairs_go_ok in Hp. apply st0_inj in Hp. apply app_inv_head in Hp.
+    apply (svcb_plain_nec _ msg off (-1)%Z [] l off' Hw Hoff (fuel_enough msg off) H). now symmetry.
+  - intro Hp. exact (proj2 (svcb_converse msg off l off' cap out Hw Hoff Hcap Ho H Hp)).
+Qed.
+
+(* the loops stop at the end of the message *)
+Lemma loop_end {A} (step : bytes -> N -> res (A * N)) (msg : bytes) : forall fuel off acc l off',
+  loop step msg fuel off acc = Ok (l, off') -> (off' <? lenN msg) = false.
+Proof.
+  induction fuel as [|f IH]; intros off acc l off' H; [discriminate|].
+  cbn [loop] in H. destruct (off <? lenN msg) eqn:E.
+  - destruct (step msg off) as [[a o]| | |]; try discriminate. cbn [bind fst snd] in H. eapply IH, H.
+  - apply Ok_pair_inj in H. destruct H as [_ <-]. exact E.
+Qed.
+Lemma loop_acc_prefix {A} (step : bytes -> N -> res (A * N)) (msg : bytes) : forall fuel off acc l off',
+  loop step msg fuel off acc = Ok (l, off') -> exists l', l = acc ++ l'.
+Proof.
+  induction fuel as [|f IH]; intros off acc l off' H; [discriminate|].
+  cbn [loop] in H. destruct (off <? lenN msg).
+  - destruct (step msg off) as [[a o]| | |]; try discriminate. cbn [bind fst snd] in H.
+    apply IH in H. destruct H as [l' ->]. eexists. rewrite <- app_assoc. reflexivity.
+  - apply Ok_pair_inj in H. destruct H as [<- _]. exists []. now rewrite app_nil_r.
+Qed.
+
+(* a message that ends in the encodings of items meets a per-item condition *)
+Lemma loop_plain_items {A} (step : bytes -> N -> res (A * N)) (PM : bytes -> N -> A -> N -> Prop)
+      (items : list (A * bytes)) :
+  (forall x b, In (x, b) items -> b <> [] /\
+     forall pre post, step (pre ++ b ++ post) (lenN pre) = Ok (x, lenN pre + lenN b) /\
+                      PM (pre ++ b ++ post) (lenN pre) x (lenN pre + lenN b)) ->
+  forall fuel pre,
+    loop_plain step (pre ++ concat (map snd items)) (PM (pre ++ concat (map snd items))) fuel (lenN pre).
+Proof.
+  induction items as [|[x b] items IH]; intros Hst fuel pre; (destruct fuel as [|f]; [exact I|]).
+  - cbn [map concat loop_plain]. rewrite app_nil_r. bfalse (lenN pre <? lenN pre). exact I.
+  - cbn [map concat loop_plain snd]. destruct (Hst x b (or_introl eq_refl)) as [Hne Hstep].
+    assert (Hpos : 1 <= lenN b). { destruct b; [congruence|]. rewrite lenN_cons. lia. }
+    rewrite !lenN_app. btrue (lenN pre <? lenN pre + (lenN b + lenN (concat (map snd items)))).
+    destruct (Hstep pre (concat (map snd items))) as [Hs HP]. rewrite Hs. split; [exact HP|].
+    specialize (IH ltac:(intros; apply Hst; right; assumption) f (pre ++ b)).
+    rewrite <- app_assoc, lenN_app in IH. exact IH.
+Qed.
+
+Theorem names_converse_iff msg off l off' cap c out :
+  wfb msg -> off <= lenN msg -> lenN msg + 320 <= cap -> lenN out = off ->
+  unpack_names msg off = Ok (l, off') ->
+  (pack_names l cap c (st0 out) = Ok (st0 (out ++ take_at msg off (off' - off))) <-> names_plain msg off).
+Proof.
+  intros Hw Hoff Hcap Ho H. split.
+  - intro Hp. unfold unpack_names in H. rewrite unpack_names_is_loop in H.
+    pose proof (loop_end _ _ _ _ _ _ _ H) as Hend.
+    pose proof (unpack_names_safe msg off Hw Hoff) as Hsafe. unfold unpack_names in Hsafe.
+    rewrite unpack_names_is_loop, H in Hsafe. cbn [safe] in Hsafe.
+    assert (Eoff' : off' = lenN msg) by lia. subst off'.
+    pose proof H as Hc.
+    apply (loop_forall unpack_name msg (fun s => exists ls, s = show_name ls /\ valid_wire ls = true)) in Hc;
+      [|intros ? ? ?; apply unpack_name_canon, Hw|constructor].
+    apply Forall_exists_map in Hc. destruct Hc as [lss [-> Hl]].
+    apply pack_names_show in Hp; [|exact Hl]. apply st0_inj in Hp. apply app_inv_head in Hp.
+    rewrite take_at_to_end in Hp.
+    assert (Emsg : msg = takeN off msg ++ concat (map wire_name lss)) by (rewrite <- Hp; symmetry; apply firstn_skipn).
+    set (pre := takeN off msg) in *. assert (Epre : lenN pre = off) by (apply lenN_takeN'; exact Hoff).
+    unfold names_plain. rewrite <- Epre.
+    pose (items := map (fun ls => (show_name ls, wire_name ls)) lss).
+    assert (Hgen : forall m, m = pre ++ concat (map snd items) ->
+              loop_plain unpack_name m (fun off _ o => name_plain m off o) (S (length m)) (lenN pre)).
+    2:{ apply Hgen. rewrite Emsg at 1. f_equal. f_equal. unfold items. symmetry. apply map_snd_pair. }
+    intros m ->.
+    apply (loop_plain_items unpack_name (fun m off _ o => name_plain m off o)).
+    intros x b Hin. unfold items in Hin. apply in_map_iff in Hin. destruct Hin as [ls [E Hin]].
+    injection E as <- <-. rewrite Forall_forall in Hl. specialize (Hl ls Hin).
+    split; [apply wire_name_nonempty|]. intros pre0 post. split; [apply unpack_name_exact, Hl|].
+    exists ls. split; [exact Hl|]. apply take_at_exact'; [reflexivity|lia].
+  - intro Hp. exact (proj2 (names_converse msg off l off' cap c out Hw Hoff Hcap Ho H Hp)).
+Qed.
+
+(* APL *)
+Lemma pack_apl_prefix_enc p cap out st' :
+  (let '(_, _, ip) := p in lenN ip = 4 \/ lenN ip = 16) ->
+  pack_apl_prefix p cap (st0 out) = Ok st' -> st' = st0 (out ++ enc_apl p).
+Proof.
+  destruct p as [[neg prefix] ip]. intros Hlen H. unfold pack_apl_prefix in H.
+  assert (Hf : match lenN ip with 4 => Some 1 | 16 => Some 2 | _ => None end = Some (apl_fam ip)).
+  { unfold apl_fam. destruct Hlen as [E|E]; rewrite E; reflexivity. }
+  rewrite Hf in H. clear Hf.
+  inv_bind H. apply pack_fixed_ok in Ha. subst a.
+  inv_bind H. apply pack_fixed_ok in Ha. subst a.
+  inv_bind H. apply pack_fixed_ok in Ha. subst a.
+  apply pack_fixed_ok in H. subst st'. unfold enc_apl, apl_addr. rewrite <- !app_assoc. reflexivity.
+Qed.
+
+Lemma pack_apl_enc l : forall cap out st',
+  Forall (fun p : bool * N * bytes => let '(_, _, ip) := p in lenN ip = 4 \/ lenN ip = 16) l ->
+  pack_apl l cap (st0 out) = Ok st' -> st' = st0 (out ++ concat (map enc_apl l)).
+Proof.
+  induction l as [|p l IH]; intros cap out st' Hok H.
+  - cbn in H. injection H as <-. cbn. now rewrite app_nil_r.
+  - pose proof (Forall_inv Hok) as Hp. apply Forall_inv_tail in Hok.
+    cbn [pack_apl] in H. inv_bind H. apply pack_apl_prefix_enc in Ha; [|exact Hp]. subst a.
+    apply IH in H; [|exact Hok]. rewrite H. cbn [map concat]. now rewrite <- app_assoc.
+Qed.
+
+Lemma pad_trim_firstn (M : bytes) n il :
+  length M = il -> skipn n M = repeat 0 (il - n) -> pad_right (trim_trailing_zeros (firstn n M)) il = M.
+Proof.
+  intros HM Hs. destruct (trim_repeat (firstn n M)) as [j Ej].
+  set (t := trim_trailing_zeros (firstn n M)) in *.
+  assert (Hl : (length t + j = Nat.min n il)%nat).
+  { apply (f_equal (@length N)) in Ej. rewrite app_length, repeat_length, firstn_length, HM in Ej. lia. }
+  rewrite pad_right_spec by lia.
+  rewrite <- (firstn_skipn n M) at 1. rewrite Hs, Ej, <- app_assoc. f_equal. rewrite <- repeat_app. f_equal. lia.
+Qed.
+
+(* one prefix: when the packed form is what was read, the address is masked *)
+Lemma apl_item_nec msg off p o C r :
+  wfb msg -> unpack_apl_prefix msg off = Ok (p, o) -> o + r <= lenN msg ->
+  enc_apl p ++ C = take_at msg off (o - off + r) ->
+  apl_masked p /\ C = take_at msg o r.
+Proof.
+  intros Hw H Hr Henc. pose proof H as Hshape. apply unpack_apl_prefix_shape in Hshape.
+  unfold unpack_apl_prefix in H.
+  destruct (lenN msg <? off + 2) eqn:E1; [discriminate|].
+  destruct (lenN msg <? off + 2 + 1) eqn:E2; [discriminate|].
+  destruct (lenN msg <? off + 2 + 1 + 1) eqn:E3; [discriminate|].
+  set (fam := be (take_at msg off 2) 0) in *. set (prefix := nthN msg (off + 2) 0) in *.
+  set (nlen := nthN msg (off + 2 + 1) 0) in *.
+  destruct (if fam =? 1 then Some 4 else if fam =? 2 then Some 16 else None) as [il|] eqn:Eil; [|discriminate].
+  assert (Hil : il = 4 \/ il = 16).
+  { destruct (fam =? 1); [left; congruence|]. destruct (fam =? 2); [right; congruence|discriminate]. }
+  destruct (8 * il <? prefix) eqn:E8; [discriminate|].
+  destruct (il <? nlen mod 128) eqn:E9; [discriminate|].
+  destruct (lenN msg <? off + 2 + 1 + 1 + nlen mod 128) eqn:E10; [discriminate|].
+  set (afd := nlen mod 128) in *. set (a := take_at msg (off + 2 + 1 + 1) afd) in *.
+  destruct ((0 <? afd) && (nthN a (afd - 1) 0 =? 0)) eqn:Ez; [discriminate|].
+  apply Ok_pair_inj in H. destruct H as [<- <-]. cbn [apl_masked].
+  set (ip := pad_right a (N.to_nat il)) in *. destruct Hshape as [Hlip _].
+  assert (Hal : lenN a = afd) by (apply lenN_take_at; lia).
+  assert (Hipl : length ip = N.to_nat il) by (unfold ip; apply pad_right_length).
+  assert (Hnl : nlen < 256) by (apply nthN_wfb; [exact Hw|lia]).
+  pose proof (apl_addr_len prefix ip) as Haddr. set (addr := apl_addr prefix ip) in *.
+  assert (Hlip' : lenN ip = il) by (unfold lenN; lia).
+  (* split the octets read *)
+  replace (off + 2 + 1 + 1 + afd - off + r) with (2 + (1 + (1 + (afd + r)))) in Henc by lia.
+  rewrite (take_at_split msg off 2) in Henc by lia.
+  rewrite (take_at_split msg (off + 2) 1), take_at_1 in Henc by lia.
+  rewrite (take_at_split msg (off + 2 + 1) 1), take_at_1 in Henc by lia.
+  rewrite (take_at_split msg (off + 2 + 1 + 1) afd) in Henc by lia.
+  fold prefix nlen a in Henc. cbn [enc_apl] in Henc. fold addr in Henc. rewrite <- !app_assoc in Henc.
+  pose proof (lenN_take_at msg off 2 ltac:(lia)) as Hx.
+  apply app_eq_len in Henc; [|unfold lenN in Hx; cbn [u16 length]; lia].
+  destruct Henc as [_ Henc]. unfold u8 in Henc. cbn [app] in Henc. injection Henc as _ En Henc.
+  assert (Elen : lenN addr = afd).
+  { unfold afd. destruct (128 <=? nlen) eqn:E128; lia. }
+  apply app_eq_len in Henc; [|unfold lenN in *; lia]. destruct Henc as [Ea EC].
+  split; [|exact EC].
+  (* addr = a: the address is its own masked form *)
+  unfold addr, apl_addr, takeN in Ea.
+  pose proof (mask_idem ip prefix) as Hid. pose proof (masked_tail _ _ Hid) as Ht.
+  rewrite mask_bytes_length in Ht.
+  pose proof (pad_trim_firstn (mask_bytes ip prefix) (N.to_nat ((prefix + 7) / 8)) (length ip)
+                (mask_bytes_length ip prefix) Ht) as Hpt.
+  rewrite Ea in Hpt. rewrite Hipl in Hpt. symmetry. exact Hpt.
+Qed.
+
+Lemma apl_masked_nec fuel : forall msg off acc l' off',
+  wfb msg -> off <= lenN msg -> (N.to_nat (lenN msg - off) < fuel)%nat ->
+  loop unpack_apl_prefix msg fuel off acc = Ok (acc ++ l', off') ->
+  concat (map enc_apl l') = take_at msg off (off' - off) ->
+  Forall apl_masked l'.
+Proof.
+  induction fuel as [|f IH]; intros msg off acc l' off' Hw Hoff Hf H Henc; [discriminate|].
+  cbn [loop] in H. destruct (off <? lenN msg) eqn:E.
+  - destruct (unpack_apl_prefix msg off) as [[p o]| | |] eqn:Es; try discriminate. cbn [bind fst snd] in H.
+    pose proof (unpack_apl_prefix_safe msg off) as Hsp. rewrite Es in Hsp. cbn in Hsp.
+    pose proof (loop_safe unpack_apl_prefix msg (fun o _ => unpack_apl_prefix_safe msg o) f o (acc ++ [p])
+                  ltac:(lia) ltac:(lia)) as Hsafe.
+    rewrite H in Hsafe. cbn [safe] in Hsafe.
+    destruct (loop_acc_prefix _ _ _ _ _ _ _ H) as [l'' El].
+    rewrite <- app_assoc in El. apply app_inv_head in El. cbn [app] in El. subst l'.
+    cbn [map concat] in Henc.
+    replace (off' - off) with (o - off + (off' - o)) in Henc by lia.
+    destruct (apl_item_nec msg off p o _ (off' - o) Hw Es ltac:(lia) Henc) as [Hm EC].
+    constructor; [exact Hm|].
+    apply (IH msg o (acc ++ [p]) l'' off' Hw ltac:(lia) ltac:(lia)); [now rewrite <- app_assoc|exact EC].
+  - apply Ok_pair_inj in H. destruct H as [H _].
+    rewrite <- (app_nil_r acc) in H at 1. apply app_inv_head in H. subst l'. constructor.
+Qed.
+
+Theorem apl_converse_iff msg off l off' cap out :
+  wfb msg -> off <= lenN msg -> lenN msg <= cap -> lenN out = off ->
+  unpack_apl msg off = Ok (l, off') ->
+  (pack_apl l cap (st0 out) = Ok (st0 (out ++ take_at msg off (off' - off))) <-> Forall apl_masked l).
+Proof.
+  intros Hw Hoff Hcap Ho H. split.
+  - intro Hp. unfold unpack_apl in H. rewrite unpack_apl_is_loop in H.
+    assert (Hshape : Forall (fun p : bool * N * bytes => let '(_, _, ip) := p in lenN ip = 4 \/ lenN ip = 16) l).
+    { apply (loop_forall unpack_apl_prefix msg _) with (fuel := S (length msg)) (off := off) (acc := @nil (bool * N * bytes)) (off' := off');
+        [|constructor|exact H].
+      intros o0 p o1 Hs. apply unpack_apl_prefix_shape in Hs. destruct p as [[? ?] ?]. tauto. }
+    apply pack_apl_enc in Hp; [|exact Hshape]. apply st0_inj in Hp. apply app_inv_head in Hp.
+    apply (apl_masked_nec _ msg off [] l off' Hw Hoff (fuel_enough msg off) H). now symmetry.
+  - intro Hp. exact (proj2 (apl_converse msg off l off' cap out Hw Hoff Hcap Ho H Hp)).
+Qed.
+
+(* type bitmaps: what packDataNsec writes never ends a block in a zero octet *)
+Lemma set_bit_nonzero x k : set_bit x k <> 0.
+Proof.
+  unfold set_bit. intro E. apply N.lor_eq_0_iff in E. destruct E as [_ E].
+  apply N.shiftl_eq_0_iff in E. discriminate E.
+Qed.
+Lemma last_or_last cur len k : (1 <= len)%nat -> (length cur <= len)%nat ->
+  last (or_last (pad_to cur len) k) 0 <> 0.
+Proof.
+  intros H1 Hl. pose proof (pad_to_length cur len Hl) as HP.
+  destruct (exists_last (l := pad_to cur len)) as [init [c E]]. { intro E. rewrite E in HP. cbn in HP. lia. }
+  rewrite E, or_last_snoc, last_last. apply set_bit_nonzero.
+Qed.
+
+Lemma nsec_plain_block fuel pre w cur post :
+  1 <= lenN cur -> last cur 0 <> 0 ->
+  nsec_plain fuel (pre ++ (w :: lenN cur :: cur) ++ post) (lenN pre + 2 + lenN cur) ->
+  nsec_plain (S fuel) (pre ++ (w :: lenN cur :: cur) ++ post) (lenN pre).
+Proof.
+  intros Hc Hlast Hrest. cbn [nsec_plain].
+  set (msg := pre ++ (w :: lenN cur :: cur) ++ post) in *.
+  assert (Hlen : lenN msg = lenN pre + (2 + lenN cur) + lenN post).
+  { unfold msg. rewrite !lenN_app, !lenN_cons. lia. }
+  rewrite Hlen. btrue (lenN pre <? lenN pre + (2 + lenN cur) + lenN post). cbv zeta.
+  assert (E2 : nthN msg (lenN pre + 1) 0 = lenN cur).
+  { unfold msg. cbn [app]. replace (pre ++ w :: lenN cur :: cur ++ post) with ((pre ++ [w]) ++ lenN cur :: cur ++ post)
+      by (rewrite <- app_assoc; reflexivity).
+    apply nthN_exact. rewrite lenN_app, lenN_cons, lenN_nil. lia. }
+  rewrite E2.
+  assert (E3 : take_at msg (lenN pre + 2) (lenN cur) = cur).
+  { unfold msg. cbn [app]. replace (pre ++ w :: lenN cur :: cur ++ post) with ((pre ++ [w; lenN cur]) ++ cur ++ post)
+      by (rewrite <- app_assoc; reflexivity).
+    apply take_at_exact. rewrite lenN_app, !lenN_cons, lenN_nil. lia. }
+  rewrite E3. split; [exact Hlast|exact Hrest].
+Qed.
+
+Lemma nsec_plain_spec l : forall lw cur lo pre fuel,
+  sorted_from lo l -> Forall (fun t => t < 65536) l ->
+  lw * 256 <= lo -> wfb cur -> lenN cur <= 32 ->
+  (cur <> [] -> lw * 256 + (lenN cur - 1) * 8 < lo) ->
+  Forall (fun u => u < lo) (block_types lw 0 cur) ->
+  (l <> [] \/ cur <> []) -> (cur <> [] -> last cur 0 <> 0) ->
+  nsec_plain fuel (pre ++ nsec_spec l lw cur) (lenN pre).
+Proof.
+  induction l as [|t r IH]; intros lw cur lo pre fuel Hs Hb I1 Hw H32 I3 Hlt I5 Hlast.
+  - assert (Hc : cur <> []) by (destruct I5; congruence).
+    assert (Hc1 : 1 <= lenN cur). { destruct cur; [congruence|]. rewrite lenN_cons. lia. }
+    cbn [nsec_spec]. destruct fuel as [|fuel]; [exact I|].
+    pose proof (nsec_plain_block fuel pre lw cur [] Hc1 (Hlast Hc)) as Hblk. rewrite app_nil_r in Hblk.
+    apply Hblk. destruct fuel as [|fuel]; [exact I|]. cbn [nsec_plain].
+    rewrite lenN_app, !lenN_cons. bfalse (lenN pre + 2 + lenN cur <? lenN pre + (1 + (1 + lenN cur))). exact I.
+  - destruct Hs as [Hlo Hs]. pose proof (Forall_inv Hb) as Ht. apply Forall_inv_tail in Hb.
+    cbn [nsec_spec].
+    set (w := t / 256) in *. set (len := (t - w * 256) / 8 + 1) in *.
+    assert (Hw1 : lw <= w) by (unfold w; lia).
+    assert (Hlen : 1 <= len <= 32) by (unfold len, w; lia).
+    assert (Etk : t = w * 256 + (N.of_nat (N.to_nat len) - 1) * 8 + t mod 8) by (unfold len, w; lia).
+    assert (Hk : t mod 8 < 8) by lia.
+    destruct ((lw <? w) && negb (lenN cur =? 0)) eqn:Hcase.
+    + assert (Hc1 : 1 <= lenN cur) by lia.
+      assert (Hc : cur <> []) by (intro E; subst cur; cbn in Hc1; lia).
+      destruct (bitmap_add w [] (N.to_nat len) (t mod 8) t) as [B1 [B2 B3]]; try assumption; try constructor; try (cbn; lia).
+      set (cur2 := or_last (pad_to [] (N.to_nat len)) (t mod 8)) in *.
+      destruct fuel as [|fuel]; [exact I|].
+      apply nsec_plain_block; [exact Hc1|exact (Hlast Hc)|].
+      replace (pre ++ (lw :: lenN cur :: cur) ++ nsec_spec r w cur2)
+        with ((pre ++ lw :: lenN cur :: cur) ++ nsec_spec r w cur2) by (rewrite <- app_assoc; reflexivity).
+      replace (lenN pre + 2 + lenN cur) with (lenN (pre ++ lw :: lenN cur :: cur))
+        by (rewrite lenN_app, !lenN_cons; lia).
+      apply (IH w cur2 (t + 1)); try assumption.
+      * lia.
+      * unfold lenN. rewrite B3. lia.
+      * intros _. unfold lenN. rewrite B3. lia.
+      * rewrite B1. constructor; [lia|constructor].
+      * right. intro E. rewrite E in B3. cbn in B3. lia.
+      * intros _. apply last_or_last; cbn [length]; lia.
+    + assert (Hor : w = lw \/ cur = []).
+      { apply andb_false_iff in Hcase. destruct Hcase as [Hc|Hc]; [left; lia|right; apply lenN_0; lia]. }
+      assert (Hcl : (length cur <= N.to_nat len)%nat).
+      { destruct cur as [|c0 cur']; [cbn; lia|]. specialize (I3 ltac:(discriminate)).
+        destruct Hor as [Hor|Hor]; [|discriminate]. unfold lenN in I3. unfold len. subst lw.
+        cbn [length] in *. lia. }
+      assert (Hbt : block_types lw 0 cur ++ [t] =
+                    block_types w 0 (or_last (pad_to cur (N.to_nat len)) (t mod 8)) /\
+                    wfb (or_last (pad_to cur (N.to_nat len)) (t mod 8)) /\
+                    length (or_last (pad_to cur (N.to_nat len)) (t mod 8)) = N.to_nat len).
+      { destruct (bitmap_add w cur (N.to_nat len) (t mod 8) t) as [B1 [B2 B3]]; try assumption; try lia.
+        - destruct Hor as [->| ->]; [|constructor].
+          eapply Forall_impl; [|exact Hlt]. cbn beta. intros; lia.
+        - split; [|split; assumption]. rewrite B1. destruct Hor as [->| ->]; reflexivity. }
+      destruct Hbt as [B1 [B2 B3]].
+      set (cur2 := or_last (pad_to cur (N.to_nat len)) (t mod 8)) in *.
+      apply (IH w cur2 (t + 1)); try assumption.
+      * lia.
+      * unfold lenN. rewrite B3. lia.
+      * intros _. unfold lenN. rewrite B3. lia.
+      * rewrite <- B1. apply Forall_app. split; [|constructor; [lia|constructor]].
+        eapply Forall_impl; [|exact Hlt]. cbn beta. intros; lia.
+      * right. intro E. rewrite E in B3. cbn in B3. lia.
+      * intros _. apply last_or_last; lia.
+Qed.
+
+Lemma unpack_nsec_go_end fuel : forall msg off lw acc l off',
+  unpack_nsec_go fuel msg off lw acc = Ok (l, off') -> (off' <? lenN msg) = false.
+Proof.
+  induction fuel as [|f IH]; intros msg off lw acc l off' H; [discriminate|].
+  cbn [unpack_nsec_go] in H. destruct (off <? lenN msg) eqn:E.
+  - destruct (lenN msg <? off + 2); [discriminate|]. destruct (_ <=? lw)%Z; [discriminate|].
+    destruct (_ =? 0); [discriminate|]. destruct (32 <? _); [discriminate|]. destruct (lenN msg <? _); [discriminate|].
+    eapply IH, H.
+  - apply Ok_pair_inj in H. destruct H as [_ <-]. exact E.
+Qed.
+
+Theorem nsec_converse_iff msg off l off' cap out :
+  wfb msg -> off <= lenN msg -> lenN msg + 320 <= cap -> lenN out = off ->
+  unpack_nsec msg off = Ok (l, off') ->
+  (pack_nsec l cap (st0 out) = Ok (st0 (out ++ take_at msg off (off' - off))) <->
+   nsec_plain (S (length msg)) msg off).
+Proof.
+  intros Hw Hoff Hcap Ho H. split.
+  - intro Hp.
+    destruct (unpack_nsec_canon msg off l off' Hw H) as [Hs Hb].
+    pose proof (unpack_nsec_safe msg off Hoff) as Hsafe. rewrite H in Hsafe. cbn [safe] in Hsafe.
+    unfold unpack_nsec in H. pose proof (unpack_nsec_go_end _ _ _ _ _ _ _ H) as Hend.
+    assert (Eoff' : off' = lenN msg) by lia. subst off'. rewrite take_at_to_end in Hp.
+    destruct l as [|t r].
+    + cbn [pack_nsec] in Hp. apply Ok_st0_inj in Hp. rewrite <- (app_nil_r out) in Hp at 1.
+      apply app_inv_head in Hp.
+      assert (off = lenN msg).
+      { apply (f_equal (@length N)) in Hp. unfold dropN in Hp. rewrite skipn_length in Hp. cbn in Hp. unfold lenN in *. lia. }
+      cbn [nsec_plain]. bfalse (off <? lenN msg). exact I.
+    + unfold pack_nsec in Hp. destruct (cap <? poff (st0 out)); [discriminate|].
+      apply nsec_go_spec in Hp. apply st0_inj in Hp. apply app_inv_head in Hp.
+      assert (Emsg : msg = takeN off msg ++ nsec_spec (t :: r) 0 []) by (rewrite <- Hp; symmetry; apply firstn_skipn).
+      set (pre := takeN off msg) in *. assert (Epre : lenN pre = off) by (apply lenN_takeN'; exact Hoff).
+      rewrite <- Epre. rewrite Emsg at 2.
+      generalize (S (length msg)) as fuel. intro fuel.
+      apply (nsec_plain_spec (t :: r) 0 [] 0); try assumption.
+      * lia.
+      * constructor.
+      * cbn. lia.
+      * congruence.
+      * constructor.
+      * left. discriminate.
+      * congruence.
+  - intro Hp. exact (proj2 (nsec_converse msg off l off' cap out Hw Hoff Hcap Ho H Hp)).
+Qed.
+
+(* a single name (K_name, the gateway host) *)
+Theorem name_converse_iff msg off s o cap c out :
+  wfb msg -> off <= lenN msg -> unpack_name msg off = Ok (s, o) ->
+  lenN msg + 320 <= cap -> lenN out = off ->
+  (pack_name s cap c (st0 out) = Ok (st0 (out ++ take_at msg off (o - off))) <-> name_plain msg off o).
+Proof.
+  intros Hw Hoff H Hcap Ho. split.
+  - intro Hp. destruct (unpack_name_canon msg off s o Hw H) as [ls [-> Hls]].
+    apply pack_name_show in Hp; [|exact Hls]. apply st0_inj, app_inv_head in Hp.
+    exists ls. split; [exact Hls|exact Hp].
+  - intro Hp. exact (proj2 (name_converse msg off s o cap c out Hw Hoff H Hp Hcap Ho)).
+Qed.
